@@ -6,6 +6,7 @@ package parser
 import (
 	"bufio"
 	"bytes"
+	"math"
 	"regexp"
 	"sort"
 	"strings"
@@ -63,6 +64,8 @@ func replaceSuffixes(inputLines *bytes.Buffer, suffixReplacements map[string]str
 	var sb strings.Builder
 	scanner := bufio.NewScanner(inputLines)
 	scanner.Split(bufio.ScanLines)
+	// lines can be longer than the scanner's default limit of 64 KiB
+	scanner.Buffer(nil, math.MaxInt)
 	skipRegex := regexp.MustCompile(`^(?:##!|\s*$)`)
 	for scanner.Scan() {
 		entry := scanner.Text()
@@ -87,6 +90,8 @@ func removeExclusions(parser *Parser, excludeFileNames []string, includeMap map[
 		excludeContent, _ := parseFile(parser, fileName, definitions)
 		scanner := bufio.NewScanner(excludeContent)
 		scanner.Split(bufio.ScanLines)
+		// lines can be longer than the scanner's default limit of 64 KiB
+		scanner.Buffer(nil, math.MaxInt)
 		for scanner.Scan() {
 			exclusion := scanner.Text()
 			delete(includeMap, exclusion)
@@ -99,6 +104,8 @@ func buildinclusionLineMap(parser *Parser, includeFileName string) (inclusionLin
 	includeContent, definitions := parseFile(parser, includeFileName, nil)
 	includeScanner := bufio.NewScanner(includeContent)
 	includeScanner.Split(bufio.ScanLines)
+	// lines can be longer than the scanner's default limit of 64 KiB
+	includeScanner.Buffer(nil, math.MaxInt)
 	includeMap := make(inclusionLineMap, 100)
 	index := 0
 	for includeScanner.Scan() {
